@@ -114,6 +114,10 @@ def sample_walks(out_path, n, seed, sc, bias="build"):
 
 def harness(zx, args, sc, timeout=1800):
     p = subprocess.run([zx] + args, cwd=sc.dir, stdout=subprocess.PIPE, stderr=subprocess.STDOUT, text=True, timeout=timeout)
+    if p.returncode == 3:
+        # the watchdog ended the run inside a call of the code under test; the trace ends with an abort event
+        log("harness: " + p.stdout.strip()[-300:])
+        return p.stdout
     if p.returncode != 0:
         raise Inconclusive("harness %s failed rc=%d: %s" % (args[0], p.returncode, p.stdout[-2000:]))
     return p.stdout
